@@ -446,7 +446,7 @@ def ints(s):
 LIST_NOTE = "list mode with a sparse set of participating workers: .stat edge matrices mis-indexed (candidate defect C18-stat-matrix-list-mode)"
 
 
-def oracle_case(sets, impl_line, full_oc=False, full_end=False, toks=None, nw=None):
+def oracle_case(sets, impl_line, full_oc=False, full_end=False, toks=None, nw=None, list_guard=False):
     """None if the property holds on this case's implementation output, else (message, known).
     full_oc / full_end: the library was probed to count other_cont / end edges completely, so these
     kinds are demanded exactly too (otherwise they are the listed finding: may be lost, never invented).
@@ -459,17 +459,18 @@ def oracle_case(sets, impl_line, full_oc=False, full_end=False, toks=None, nw=No
     used = sorted(set(int(toks[j + 3]) for j in range(len(toks)) if toks[j] in ("o", "c", "w", "e"))) if toks is not None else []
     for sfull, (A, st, evs, cov) in zip(sets, segs):
         name = sfull[0]
-        # candidate defect C18-stat-matrix-list-mode (notes/C18.md): without worker_specific_state_array the report sizes its
-        # worker x worker edge matrices by the NUMBER of participating workers but indexes them by worker id; with a
-        # participating worker whose id exceeds that number the per-kind totals are mis-attributed (or the heap is overrun).
-        # Guarded exactly there: list mode and max participating id > number of participating workers.
-        sparse_list = len(sfull) > 8 and sfull[8] == 0 and used and max(used) > len(used)
+        # defect C18-stat-matrix-list-mode (repaired by e76d04b): the report sized its worker x worker edge matrices by the
+        # NUMBER of participating workers but indexed them by worker id.  list_guard is off: the repaired behaviour is required.
+        sparse_list = list_guard and len(sfull) > 8 and sfull[8] == 0 and used and max(used) > len(used)
         a = parse_A(A)
         if a.get("rc") != "0":
             if sparse_list and a.get("rc", "").startswith("sig"):
                 others_lost = others_lost or LIST_NOTE
                 continue
             return ("setting %s: the recording run died (%s)" % (name, A[:80]), False)
+        if sparse_list and (not st or "sedges" not in st or not evs):
+            others_lost = others_lost or LIST_NOTE      # the overrun of the report's matrices took the rest of the run with it
+            continue
         # the stream the recorder delivered against the input
         if exp_tasks is not None:
             per = split_events(evs)
@@ -554,7 +555,7 @@ def totals_only(A):
     return " ".join(w for w in A.split() if not w.startswith(("cur=", "mat=")))
 
 
-def correspondence(sets, impl_line, model_line, toks=None):
+def correspondence(sets, impl_line, model_line, toks=None, list_guard=False):
     """list of messages where the extracted model and the implementation disagree"""
     bad = []
     used = sorted(set(int(toks[j + 3]) for j in range(len(toks)) if toks[j] in ("o", "c", "w", "e"))) if toks else []
@@ -567,11 +568,16 @@ def correspondence(sets, impl_line, model_line, toks=None):
     for s, iseg, M in zip(sets, isegs, msegs):
         A = " ; ".join(x.strip() for x in iseg.split(" ; ")[:2])
         M = " ; ".join(x.strip() for x in M.split(" ; ")[:2])
+        guarded = list_guard and len(s) > 8 and s[8] == 0 and used and max(used) > len(used)   # candidate defect C18-stat-matrix-list-mode
+        if guarded and A.startswith("rc=sig"):
+            continue
         if s[6] >= 10:      # library defaults: the thresholds are not part of the model
             A, M = totals_only(A.split(" ; ")[0]), totals_only(M.split(" ; ")[0])
-        elif len(s) > 8 and s[8] == 0 and used and max(used) > len(used):   # guarded: candidate defect C18-stat-matrix-list-mode
+        elif guarded:
             A = " ".join(w for w in A.split() if not w.startswith("sedges="))
             M = " ".join(w for w in M.split() if not w.startswith("sedges="))
+            if " ; " not in A:          # the overrun of the report's matrices took the rest of the run with it
+                M = M.split(" ; ")[0]
         if A != M:
             bad.append("setting %s: impl [%s] model [%s]" % (s[0], A, M))
     # model-internal consistency (statements of the theorems, evaluated): totals under arbitrary
@@ -628,6 +634,17 @@ def probe(exe, workdir):
         msgs.append("witness `%s`: .stat other-cont edges = %d uncontracted, %d with the default options (root summary: %d)"
                     % (W_OTHER, o_none[4], o_def[4], o_root[4]))
     return oc, fe, msgs
+
+
+def probe_list(exe, workdir):
+    """candidate defect C18-stat-matrix-list-mode: deterministic witness, workers 0 and 3 of 4, default (list) mode against
+    array mode; returns (present, [(sedges, P) array, (sedges, P) list])"""
+    lsets = [("none-array", 0, 0, 0, PRUNE_DEFAULT, 0, 0, 0, 1), ("none-list", 0, 0, 0, PRUNE_DEFAULT, 0, 0, 0, 0)]
+    lw = W_LIST.split()
+    limpl, _, _ = vlib.run_lines([exe, workdir], [case_line(int(lw[0]), lsets, lw[1:])], timeout=120)
+    lsegs = split_impl(limpl[0]) if limpl else []
+    lres = [(sg[1].get("sedges"), sg[3].get("P")) for sg in lsegs]
+    return (len(lres) == 2 and lres[0][0] == "1,1,1,1,0" and lres[1][0] != lres[0][0]), lres
 
 
 def make_cases(ctx, n, sizes):
@@ -693,7 +710,7 @@ def read_stat(path):
     return d, sums, P
 
 
-def real_run(rexe, workdir, n, setting, workers, array, tag):
+def real_run(rexe, workdir, n, setting, workers, array, tag, list_guard=False):
     """one real recording; returns (message or None, observation dict)"""
     name, umin, cmax, nct, prune, cmc = setting
     prefix = os.path.join(workdir, "real_%s_%d" % (tag, os.getpid()))
@@ -724,7 +741,7 @@ def real_run(rexe, workdir, n, setting, workers, array, tag):
     if ints(root["edges"]) != [c, c, c, w, o]:
         return what + ": root edge counts (end,create,create_cont,wait_cont,other_cont)=%s, the program's DAG has %s" % (root["edges"], [c, c, c, w, o]), obs
     obs["list_mode_sparse"] = (not array) and P < workers
-    if sums != [c, c, c, w, o] and not obs["list_mode_sparse"]:     # guarded: candidate defect C18-stat-matrix-list-mode
+    if sums != [c, c, c, w, o] and not (list_guard and obs["list_mode_sparse"]):     # guarded: candidate defect C18-stat-matrix-list-mode
         return what + ": .stat edge totals %s, the program's DAG has %s (n_workers (P) = %d)" % (sums, [c, c, c, w, o], P), obs
     if [int(d.get("create_task", -1)), int(d.get("wait_tasks", -1)), int(d.get("end_task", -1))] != [c, w, c + 1]:
         return what + ": .stat create/wait/end lines %s/%s/%s, the program did %d/%d/%d" % (
@@ -741,7 +758,7 @@ def real_run(rexe, workdir, n, setting, workers, array, tag):
     return None, obs
 
 
-def real_recordings(ctx, full):
+def real_recordings(ctx, list_guard):
     rexe = ctx.real_exe
     workdir = os.path.join(ctx.dir, "run")
     os.makedirs(workdir, exist_ok=True)
@@ -752,7 +769,7 @@ def real_recordings(ctx, full):
         for st in REAL_SETTINGS:
             for array in ((0, 1) if ctx.thorough else (k % 2,)):
                 k += 1
-                msg, obs = real_run(rexe, workdir, REAL_N, st, workers, array, "%d" % k)
+                msg, obs = real_run(rexe, workdir, REAL_N, st, workers, array, "%d" % k, list_guard)
                 runs += 1
                 if msg:
                     fails.append((msg, obs))
@@ -780,12 +797,14 @@ def real_recordings(ctx, full):
 def judge(ctx, cases, exe, drv, broken, log, search=True):
     lines = [case_line(nw, sets, toks) for nw, sets, toks in cases]
     oc, fe, probe_msgs = probe(exe, os.path.join(ctx.dir, "run"))
+    list_present, lres = probe_list(exe, os.path.join(ctx.dir, "run"))
     impl, model, rc1, rc2 = run_cases(exe, drv, lines, os.path.join(ctx.dir, "run"), (oc, fe))
     failing, known, diffs = [], [], []
     dist_size, dist_depth, dist_w, res_dist = {}, {}, {}, {"contracted_to_1": 0, "uncontracted": 0, "partial": 0}
     dist_wset = {"all workers": 0, "sparse subset": 0, "single worker": 0}
     policy = {}
     ek_order = {}
+    list_recs = {"list_mode_recordings": 0, "of_which_with_sparse_worker_ids(max id > participants)": 0}
     nsettings = 0
     for i, (nw, sets, toks) in enumerate(cases):
         il = impl[i] if i < len(impl) else "<no output>"
@@ -807,6 +826,9 @@ def judge(ctx, cases, exe, drv, broken, log, search=True):
                 res_dist["uncontracted"] += 1
             else:
                 res_dist["partial"] += 1
+            if s_[8] == 0:
+                list_recs["list_mode_recordings"] += 1
+                list_recs["of_which_with_sparse_worker_ids(max id > participants)"] += bool(used and max(used) > len(used))
             pc = policy.setdefault(policy_class(s_), {"recordings": 0, "fired": 0, "partly_contracted": 0, "contracted_subgraphs": 0,
                                                        "contraction_below_the_closing_node": 0})
             pc["recordings"] += 1
@@ -832,7 +854,7 @@ def judge(ctx, cases, exe, drv, broken, log, search=True):
         d = correspondence(sets, il, ml, toks)
         if d:
             diffs.append((lines[i], il, ml, d))
-    real_fails = real_recordings(ctx, ctx.thorough)
+    real_fails = real_recordings(ctx, False)
     ctx.cov["correspondence"] = {
         "cases": len(cases), "recordings": nsettings, "disagreements": len(diffs), "oracle_failures": len(failing),
         "library_variant": {"other_cont_counted": oc, "end_edges_of_contracted_sections_reported": fe},
@@ -841,6 +863,7 @@ def judge(ctx, cases, exe, drv, broken, log, search=True):
                                "participating_workers": dist_wset},
         "impl_result_distribution": res_dist, "impl_exit": rc1, "model_exit": rc2}
     ctx.cov["policy_coverage"] = policy
+    ctx.cov["worker_state_mode"] = list_recs
     ctx.cov["in_edge_kind_by_driving_order"] = ek_order
     ctx.cov["evaluations"] = nsettings
     ctx.cov["distinct_nontrivial"] = len(set(" ".join(t) for _, _, t in cases if tree_stats(t)[0] > 1))
@@ -871,22 +894,16 @@ def judge(ctx, cases, exe, drv, broken, log, search=True):
     elif listed:
         ctx.notes.append("finding %s is listed but no longer reproduces: full-strength oracle and the repaired model branch used" % KNOWN_ID)
     # candidate defect in the default (list) mode of the recorder: deterministic witness, workers 0 and 3 of 4
-    lsets = [("none-array", 0, 0, 0, PRUNE_DEFAULT, 0, 0, 0, 1), ("none-list", 0, 0, 0, PRUNE_DEFAULT, 0, 0, 0, 0)]
-    lw = W_LIST.split()
-    limpl, _, _ = vlib.run_lines([exe, os.path.join(ctx.dir, "run")], [case_line(int(lw[0]), lsets, lw[1:])], timeout=120)
-    lsegs = split_impl(limpl[0]) if limpl else []
-    lres = [(sg[1].get("sedges"), sg[3].get("P")) for sg in lsegs]
     ctx.cov["list_mode_witness"] = {"case": W_LIST, "array_mode(sedges,P)": lres[0] if lres else None,
-                                    "list_mode(sedges,P)": lres[1] if len(lres) > 1 else None}
-    if len(lres) == 2 and lres[0][0] != lres[1][0]:
-        msg = ("%s: without worker_specific_state_array (the default) and workers {0,3} of 4 taking part, .stat edge totals "
+                                    "list_mode(sedges,P)": lres[1] if len(lres) > 1 else None, "finding_present": list_present}
+    if list_present:     # defect repaired by e76d04b came back: one-way probe, reported with the witness as a failing input
+        msg = ("without worker_specific_state_array (the default) and workers {0,3} of 4 taking part, .stat edge totals "
                "(end,create,create_cont,wait_cont,other_cont) = %s with n_workers (P) = %s; with the array: %s" % (
-                   LIST_ID, lres[1][0], lres[1][1], lres[0][0]))
-        ctx.notes.append("candidate defect " + msg + "; the oracle is guarded for exactly this situation (list mode, a participating "
-                         "worker id above the number of participating workers); seen on %d generated case(s)"
-                         % sum(1 for k in known if k[2] == LIST_NOTE))
-        if any(f.get("id") == LIST_ID for f in vlib.known_findings("C18")):
-            ctx.known(msg)
+                   lres[1][0], lres[1][1], lres[0][0]))
+        lsets = [("none-array", 0, 0, 0, PRUNE_DEFAULT, 0, 0, 0, 1), ("none-list", 0, 0, 0, PRUNE_DEFAULT, 0, 0, 0, 0)]
+        ctx.violation("oracle", msg, {"case": case_line(4, lsets, W_LIST.split()[1:]), "observed": msg,
+                                      "expected": ".stat edge totals 1,1,1,1,0 whichever workers took part (property C18; repaired by e76d04b)",
+                                      "level": "profiler public instrumentation API, default worker-state mode"}, found=True)
     if failing:
         c, o, msg = min(failing, key=lambda f: len(f[0]))
         ctx.violation("oracle", msg, {"case": c, "observed": o[:4000], "expected": "see property C18: " + msg,
@@ -952,6 +969,7 @@ def judge(ctx, cases, exe, drv, broken, log, search=True):
 def search_failing(ctx, exe, drv):
     """after a correspondence break: look for an input on which the property itself fails"""
     oc, fe, _ = probe(exe, os.path.join(ctx.dir, "run"))
+    list_present, _ = probe_list(exe, os.path.join(ctx.dir, "run"))
     cases = make_cases(ctx, 150, [0, 0, 1, 1, 2])
     lines = [case_line(nw, sets, toks) for nw, sets, toks in cases]
     impl, rc, raw = vlib.run_lines([exe, os.path.join(ctx.dir, "run")], lines, timeout=900)
@@ -993,7 +1011,9 @@ def replay(ctx, path):
         return 0
     c = body["case"]
     oc, fe, msgs = probe(exe, os.path.join(ctx.dir, "run"))
-    print("library variant: other_cont counted=%s, end edges of contracted sections reported=%s" % (oc, fe))
+    list_present, lres = probe_list(exe, os.path.join(ctx.dir, "run"))
+    print("library variant: other_cont counted=%s, end edges of contracted sections reported=%s, list-mode matrix defect present=%s"
+          % (oc, fe, list_present))
     impl, model, _, _ = run_cases(exe, drv, [c], os.path.join(ctx.dir, "run"), (oc, fe))
     w = c.split()
     nset = int(w[1])
